@@ -153,8 +153,9 @@ def _encode_rules(prog, res, f):
                 if x is not None and ty_of(v) and ty_of(v).get("bits") == 64:
                     shl_sites.append((b, x, s["line"]))
     res.ob("M-range", "%s | two satellite-bit computations (satellite rows, signal rows)" % tag, len(shl_sites) == 2, "found %d" % len(shl_sites), loc)
+    ivx = Intervals(fa, prog, use_asserts=False)
     for b, x, line in shl_sites:
-        ii = iv.interval(x, b)
+        ii = ivx.interval(x, b)
         res.ob("M-range", "%s | satellite id accepted for the mask is exactly 1..=64 (%s)" % (tag, show(x, names)), ii == (1, 64),
                "interval of the id where its bit is computed: %s" % (ii,), {"file": loc["file"], "line": line}, sample={"id": show(x, names), "interval": ii})
     # --- duplicate checks: Err blocks guarded by (bit & acc) > 0 / != 0
